@@ -368,6 +368,9 @@ type Spec struct {
 // Notify transmits a notification to the specified method and parameters.  It
 // blocks until the notification has been sent or ctx ends.
 func (c *Client) Notify(ctx context.Context, method string, params any) error {
+	if err := ctx.Err(); err != nil {
+		return err // the context ended before anything was sent
+	}
 	req, err := c.note(ctx, method, params)
 	if err != nil {
 		return err
